@@ -74,6 +74,14 @@ func TestPlan(t *testing.T) {
 		// the binary leg of the formatter properties: `spok --fmt` on generated files
 		p.Rule = "binary leg: generated spokfiles (random layouts, comments in every position, side-effect-free loading) formatted in place by `spok --fmt` in the sandbox; the file afterwards is parsed in-process and judged by the same projection as the in-process leg (C11: a second --fmt leaves it byte-identical). Non-trivial: the file changed; distinct by source"
 		binShards("^TestFmtBinary$", 8, 40, 16, 600)
+	case "C18":
+		p.Level = "fault_enumeration"
+		p.Rule = "binary leg: a task whose literal dependencies are regular / empty / directory / missing / dangling link / link / unreadable (mode 0) files in every mixture of up to 6, run through the CLI as an unprivileged user under {plain, --force, --json, --quiet}: spok never dies (signal, panic); with an unopenable dependency and no --force it stops with a message, exits non-zero and does not run the task; otherwise it succeeds"
+		binShards("^TestHashBinary$", 8, 50, 16, 500)
+	case "C01", "C02":
+		// the binary leg of the cache properties: incremental runs through the real CLI
+		p.Rule = "binary leg: programs of 1-3 tasks (no / literal / glob file dependency, task dependencies, selected by name or as the default task) run 2-6 times through the CLI under {plain, --json, --quiet, --debug, --json --quiet} from the project root or a nested directory, with edits of dependency files in between; the side-effect log must show a task running exactly when it has no file dependency, never ran, or a file it depends on was edited since its last run"
+		binShards("^TestSkipBinary$", 8, 40, 16, 500)
 	case "C08":
 		// the binary leg of C08: the CLI reports exactly the parser's located error for the file's text
 		p.Rule = "binary leg: permissive-grammar texts (with blank / whitespace-only lines added in front or behind) that do not parse are written as a spokfile; `spok --show` and `spok --fmt` must terminate, exit non-zero without a Go panic and print the very error the parser gives for that text (same line number, same quoted line)"
@@ -294,6 +302,18 @@ func TestReplay(t *testing.T) {
 
 func replayOther(t *testing.T, v ev.Violation, raw []byte) *rp.Fail {
 	switch v.Kind {
+	case "hashbin":
+		var c HashBinCase
+		if err := json.Unmarshal(raw, &c); err != nil {
+			t.Fatal(err)
+		}
+		return execHashBin(nil, newBox(t), c)
+	case "skipbin":
+		var c SkipCase
+		if err := json.Unmarshal(raw, &c); err != nil {
+			t.Fatal(err)
+		}
+		return execSkip(v.Property, nil, newBox(t), c)
 	case "errbin":
 		var c ErrCase
 		if err := json.Unmarshal(raw, &c); err != nil {
@@ -459,6 +479,30 @@ func execFindBinary(s *ev.Shard, b *sandbox.Box, c FindCase) *rp.Fail {
 		}
 	}
 	return nil
+}
+
+func TestHashBinary(t *testing.T) {
+	s := ev.Open(t, "C18")
+	b := newBox(t)
+	rp.Check(t, s, "hashbin", genHashBin, func(c HashBinCase) *rp.Fail {
+		s.Class("space_binary_hash")
+		if s.WantSample() {
+			s.Sample(c)
+		}
+		return execHashBin(s, b, c)
+	})
+}
+
+func TestSkipBinary(t *testing.T) {
+	s := ev.Open(t, id())
+	b := newBox(t)
+	rp.Check(t, s, "skipbin", genSkip, func(c SkipCase) *rp.Fail {
+		s.Class("space_binary_incremental")
+		if s.WantSample() {
+			s.Sample(map[string]any{"spokfile": c.source(), "steps": c.Steps})
+		}
+		return execSkip(id(), s, b, c)
+	})
 }
 
 func TestErrBinary(t *testing.T) {
